@@ -6,14 +6,14 @@ TLC (spec/TraceReal.tla) prints, in event order,
    <<"DEF", json>>        a[n] := terms (adjoint of node n in the running pass)
    <<"CHK", json>>        observed bit patterns hx + defining terms v
 This module evaluates the terms in f64, carrying a magnitude bound for a cancellation-aware
-tolerance of TOL_ULPS units in the last place of the magnitude, and reports the CHKs that fail.
+tolerance of TOL_ULPS (16) units in the last place of the magnitude, and reports the CHKs that fail.
 It contains no derivative rule and no tensor index arithmetic: those are in the TLA+ modules.
 """
 import json
 import math
 import struct
 
-TOL_ULPS = 64.0
+TOL_ULPS = 16.0
 
 
 def unhex(s):
@@ -101,11 +101,11 @@ def ev0(t, env):
                 v = a ** e
                 if isinstance(v, complex):
                     return float("nan"), float("inf")
-                return v, abs(v) * (1.0 + abs(e) * (ma / abs(a) if a != 0 else 1.0))
+                return v, abs(v) * (1.0 + abs(e) * ((ma / abs(a) - 1.0) if a != 0 else 1.0))
             v = e * a ** (e - 1.0)
             if isinstance(v, complex):
                 return float("nan"), float("inf")
-            return v, abs(v) * (1.0 + abs(e - 1.0) * (ma / abs(a) if a != 0 else 1.0))
+            return v, abs(v) * (1.0 + abs(e - 1.0) * ((ma / abs(a) - 1.0) if a != 0 else 1.0))
         except (ValueError, OverflowError, ZeroDivisionError):
             return float("nan"), float("inf")
     raise ValueError("unknown term " + k)
